@@ -22,6 +22,12 @@ EXPLANATION = (
 )
 
 
+def _r(t: ast.AST) -> ast.AST:
+    while isinstance(t, ast.Subscript):
+        t = t.value
+    return t
+
+
 def _nested_funcs(fn: ast.AST) -> dict[str, ast.FunctionDef]:
     return {
         n.name: n
@@ -322,6 +328,17 @@ def run(repo: Repo, rep: Report) -> None:
     rep.ob("C11.e-ends-forwarded", paths, "InvPath.eval", "inverse swaps pattern ends and result components", ok,
            "" if ok else "InvPath.eval no longer evaluates (obj, arg, subj) and yields (o, s)", node=inv)
     run_extra(repo, rep)
+    # paths keep no evaluation state (shared with C15.f)
+    rep.rule("C11.h-paths-are-stateless", "no Path.eval (or nested helper) assigns an attribute of the path object", floor=5)
+    for c in path_classes:
+        cname = c.rsplit(".", 1)[1]
+        if not paths.has(cname + ".eval"):
+            continue
+        f = paths.func(cname + ".eval")
+        writes = [n for n in own_nodes(f, include_nested=True) if isinstance(n, (ast.Assign, ast.AugAssign, ast.AnnAssign)) and any(
+            isinstance(_r(t), ast.Attribute) and isinstance(_r(t).value, ast.Name) and _r(t).value.id == "self" for t in (n.targets if isinstance(n, ast.Assign) else [n.target]))]
+        rep.ob("C11.h-paths-are-stateless", paths, cname + ".eval", "eval() writes no attribute of self", not writes,
+               "stateless" if not writes else "eval() memoises on the path object (%s): after the graph changes the stale result is returned" % norm(writes[0])[:70], node=writes[0] if writes else f)
 
 
 # ---------------------------------------------------------------------------
